@@ -43,6 +43,27 @@ def pos_dash_tokens(rng):
 def make_lines(rng, n):
     lines = []
     for i in range(n):
+        if i % 20 == 3:
+            # the domain of the exact theorems (DashExact.v): integer vertices, axis-aligned segments, integer dashes and offset
+            ops, x, y = [], rng.randrange(-50, 200), rng.randrange(-50, 200)
+            for _s in range(rng.choice([1, 1, 2])):
+                ops.append("M " + scene.fpt(float(x), float(y)))
+                x0, y0 = x, y
+                for _k in range(rng.randrange(1, 6)):
+                    if rng.random() < 0.5:
+                        x += rng.choice([-1, 1]) * rng.randrange(0, 40)
+                    else:
+                        y += rng.choice([-1, 1]) * rng.randrange(0, 40)
+                    ops.append("L " + scene.fpt(float(x), float(y)))
+                if rng.random() < 0.4:
+                    if x != x0 and y != y0:
+                        ops.append("L " + scene.fpt(float(x0), float(y)))
+                    ops.append("Z"); x, y = x0, y0
+                x, y = x + rng.randrange(-20, 20), y + rng.randrange(-20, 20)
+            arr = [float(rng.randrange(1, 30)) for _ in range(rng.randrange(1, 6))]
+            off = float(rng.choice([0, 0, 3, -7, 50, -120, 1000]))
+            lines.append("pdash %d %d %s %d %s" % (i, len(arr), " ".join(str(FB(a)) for a in arr), FB(off), scene.path_tokens(ops, 0)))
+            continue
         if i % 2 == 0:
             lines.append("pdash %d %s %s" % (i, pos_dash_tokens(rng), scene.path_tokens(simple_subpath(rng), 0)))
         else:
